@@ -167,7 +167,7 @@ Proof.
   change (dedupL (x :: z :: l)) with (if (x =? z)%N then dedupL (z :: l) else x :: dedupL (z :: l)).
   destruct (N.eqb_spec x z) as [->|Hn]; [apply IH; exact Hs|].
   constructor; [apply IH; exact Hs|].
-  rewrite Forall_forall in Hf |- *. intros y Hy. apply dedupL_In in Hy.
+  rewrite Forall_forall in Hf |- *. intros y Hy. rewrite dedupL_In in Hy.
   pose proof (Hf z (or_introl eq_refl)) as Hz.
   apply StronglySorted_inv in Hs as [_ Hfz]. rewrite Forall_forall in Hfz.
   destruct Hy as [<-|Hy]; [lia|]. specialize (Hfz y Hy). lia.
@@ -296,7 +296,8 @@ Section Canon.
     induction l as [|z l IH]; intros H; [reflexivity|].
     apply StronglySorted_inv in H as [Hs Hf]. cbn [insN].
     destruct (N.leb_spec (fst z) (fst x)) as [Hle|Hgt].
-    - rewrite !exps_of_cons, (IH Hs). destruct (fst z =? k)%N; reflexivity.
+    - rewrite (exps_of_cons k z (insN x l)), (exps_of_cons k z l), (IH Hs).
+      destruct (fst z =? k)%N; reflexivity.
     - rewrite (exps_of_cons k x (z :: l)). rewrite (exps_of_cons k x []).
       destruct (N.eqb_spec (fst x) k) as [E|_]; [|cbn; rewrite app_nil_r; reflexivity].
       rewrite (exps_of_none k (z :: l)); [reflexivity|].
@@ -357,7 +358,7 @@ Section Canon.
         set (X := insert_letter v (letter_set (map fst l))).
         assert (HX : forall y, In y X -> (w < y)%N).
         { intros y Hy. unfold X in Hy. apply insert_letter_In in Hy as [->|Hy]; [lia|].
-          apply letter_set_In in Hy. apply in_map_iff in Hy as [z [<- Hz]].
+          rewrite letter_set_In in Hy. apply in_map_iff in Hy as [z [<- Hz]].
           rewrite Forall_forall in Hlbv. specialize (Hlbv z Hz). lia. }
         rewrite (insert_letter_lt w X HX). cbn [map]. f_equal.
         * rewrite N.eqb_refl. rewrite (exps_of_none w ((v, p) :: l)); [reflexivity|].
@@ -391,7 +392,7 @@ Section Canon.
     - apply map_ext. intros k. unfold named. cbn [fst snd]. rewrite sortN_exps. reflexivity.
     - apply ssN_unique; [apply letter_set_sorted..|].
       intros x. rewrite !letter_set_In, !in_map_iff. split; intros [z [E Hz]]; exists z; split;
-        try exact E; apply sortN_In; exact Hz.
+        try exact E; [rewrite sortN_In|rewrite sortN_In in Hz]; exact Hz.
   Qed.
 
   Lemma canon_vars_keys (vs : list (N * T)) :
@@ -439,7 +440,7 @@ Section Canon.
     - apply letter_set_sorted.
     - intros k. rewrite dedupL_In, sortL_In, letter_set_In. unfold letters_of.
       rewrite !in_flat_map. split; intros [x [Hx Hk]]; exists x; split; try exact Hx.
-      + apply letter_set_In in Hk. exact Hk.
-      + apply letter_set_In. exact Hk.
+      + rewrite letter_set_In in Hk. exact Hk.
+      + rewrite letter_set_In. exact Hk.
   Qed.
 End Canon.
